@@ -200,6 +200,12 @@ def gen_case(r, tier):
             ev.append(["obs"])
         elif k < 0.90:
             ev.append(["topic", r.randrange(n)])
+        elif k < 0.96:
+            # traffic keeps arriving within the lease while the total time exceeds it (refresh points)
+            for _ in range(r.randint(2, 4)):
+                ev.append(["jump", r.choice([400 * MS, 700 * MS, 900 * MS])])
+                ev.append(["net"])
+            ev.append(["obs"])
         else:
             ev.append(["obs"])
     ev += [["net"], ["obs"]]
@@ -226,6 +232,9 @@ def corpus():
         {"parts": [[0, "", S], [0, "", S]], "ann": 400,
          "ev": [["loss", 1, 0, 2], ["net"], ["obs"], ["jump", 500 * MS], ["net"], ["obs"], ["mute", 1, 1], ["jump", S + 1], ["obs"],
                 ["mute", 1, 0], ["jump", 500 * MS], ["net"], ["obs"]]},
+        # the periodic announcement refreshes last_communication: still there 2.5 s after discovery (lease 2 s), gone 2 s after the last one
+        {"parts": [[0, "", None], [0, "", 2 * S]], "ann": 400,
+         "ev": [["net"], ["obs"], ["jump", 1500 * MS], ["net"], ["obs"], ["jump", S], ["obs"], ["mute", 1, 1], ["jump", S + 1], ["obs"]]},
         # graceful departure
         {"parts": [[0, "", None], [0, "", None], [0, "", None]], "ann": 1000,
          "ev": [["net"], ["obs"], ["delP", 1], ["net"], ["obs"]]},
